@@ -17,7 +17,7 @@ for d in seeded/$glob/; do
     out=$(VERIF_REPO="$wt" ./check "$id" 2>&1); rc=$?
     if [ $rc -eq 1 ]; then echo "DETECTED $name by $id"; else echo "MISSED $name by $id rc=$rc"; bad=$((bad+1)); fi
   done
-  rm -f /verif/.cache/bin/*.$(echo -n "$wt" | sha256sum | cut -c1-8).test
+  tag=$(echo -n "$wt" | sha256sum | cut -c1-8); rm -f /verif/.cache/bin/*.$tag.test; rm -rf /verif/.cache/out/*-$tag /verif/.cache/alt-$tag.mod /verif/.cache/alt-$tag.sum
   git -C /repo worktree remove --force "$wt"
 done
 rm -f /verif/replays/*/fail-*
